@@ -416,10 +416,17 @@ struct StringStream {
         const SizeT     new_length = (Length() + len);
 
         if (Capacity() < new_length) {
-            expand(new_length);
-        }
+            // 'str' may point into this stream (s += s): copy it before the old storage is released.
+            Char_T *old_storage = Storage();
 
-        Memory::Copy((Storage() + Length()), str, (len * size));
+            allocate(new_length * SizeT{4});
+
+            Memory::Copy(Storage(), old_storage, (Length() * size));
+            Memory::Copy((Storage() + Length()), str, (len * size));
+            Memory::Deallocate(old_storage);
+        } else {
+            Memory::Copy((Storage() + Length()), str, (len * size));
+        }
 
         setLength(new_length);
     }
